@@ -316,6 +316,115 @@ func (le *LockEngine) Run() {
 	for _, fn := range roots {
 		le.analyse(fn, Facts{})
 	}
+	le.siblingMethodWrites()
+}
+
+// siblingMethodWrites: a goroutine spawned in a loop that calls a first-party function or method on an aggregate
+// captured from outside the loop (`failure.set(err)`) writes shared state inside that callee: every store the
+// callee makes through that receiver/parameter must be under a lock the callee itself holds at the store.
+func (le *LockEngine) siblingMethodWrites() {
+	p := le.p
+	for _, g := range le.GoLits {
+		goLit := g.Fn
+		loop := le.loopAncestor(goLit.Parent, goLit.Lit)
+		if loop == nil {
+			continue
+		}
+		for _, fn := range AllFnsUnder(goLit) {
+			fn := fn
+			walkNoLit(fn.Body, func(n ast.Node) bool {
+				call, ok := n.(*ast.CallExpr)
+				if !ok {
+					return true
+				}
+				cf := p.Callee(fn, call)
+				if cf == nil {
+					return true
+				}
+				callee := p.ByObj[cf]
+				if callee == nil || callee.Body == nil || le.flows[callee] == nil {
+					return true
+				}
+				// arguments (and the receiver) rooted at a variable captured from outside the loop
+				type bind struct {
+					param types.Object
+					root  *types.Var
+				}
+				var binds []bind
+				captured := func(e ast.Expr) *types.Var {
+					root, _, ok := p.PathKey(fn, e)
+					v, isVar := root.(*types.Var)
+					if !ok || !isVar || v.IsField() {
+						return nil
+					}
+					if v.Pos() >= goLit.Lit.Pos() && v.Pos() <= goLit.Lit.End() {
+						return nil
+					}
+					if v.Pos() >= loop.Pos() && v.Pos() <= loop.End() {
+						return nil
+					}
+					if _, isPtr := v.Type().Underlying().(*types.Pointer); !isPtr {
+						if _, isAddr := ast.Unparen(e).(*ast.UnaryExpr); !isAddr {
+							if se, isSel := ast.Unparen(call.Fun).(*ast.SelectorExpr); !isSel || ast.Unparen(se.X) != ast.Unparen(e) {
+								return nil // passed by value: the callee writes a copy
+							}
+						}
+					}
+					return v
+				}
+				sig := cf.Type().(*types.Signature)
+				if se, ok := ast.Unparen(call.Fun).(*ast.SelectorExpr); ok && sig.Recv() != nil {
+					if v := captured(se.X); v != nil && callee.Decl != nil && callee.Decl.Recv != nil && len(callee.Decl.Recv.List) == 1 && len(callee.Decl.Recv.List[0].Names) == 1 {
+						if _, isPtr := sig.Recv().Type().Underlying().(*types.Pointer); isPtr {
+							binds = append(binds, bind{callee.Pkg.TypesInfo.Defs[callee.Decl.Recv.List[0].Names[0]], v})
+						}
+					}
+				}
+				for i, a := range call.Args {
+					if v := captured(a); v != nil {
+						if po := paramObjAny(callee, i); po != nil {
+							if _, isPtr := po.Type().Underlying().(*types.Pointer); isPtr {
+								binds = append(binds, bind{po, v})
+							}
+						}
+					}
+				}
+				if len(binds) == 0 {
+					return true
+				}
+				le.flows[callee].Visit(func(_ *cfg.Block, nd ast.Node, before Facts) {
+					var lhs []ast.Expr
+					switch x := nd.(type) {
+					case *ast.AssignStmt:
+						lhs = x.Lhs
+					case *ast.IncDecStmt:
+						lhs = []ast.Expr{x.X}
+					}
+					for _, l := range lhs {
+						fv, _ := p.FieldSel(callee, l)
+						root, _, ok := p.PathKey(callee, l)
+						if fv == nil || !ok {
+							continue
+						}
+						for _, b := range binds {
+							if root != b.param {
+								continue
+							}
+							var own []string
+							for k := range before {
+								if strings.HasPrefix(k, "H|") {
+									own = append(own, k[2:])
+								}
+							}
+							sort.Strings(own)
+							le.SibWrites = append(le.SibWrites, sibWrite{Lit: goLit, Pos: l.Pos(), Obj: fv, Var: b.root.Name() + "." + fv.Name() + " (in " + callee.Name + ")", Held: own, OK: len(own) > 0})
+						}
+					}
+				})
+				return true
+			})
+		}
+	}
 }
 
 func (le *LockEngine) summarySize() int {
@@ -1057,6 +1166,7 @@ func (le *LockEngine) sibling(fn *Fn, pos token.Pos, lhs []ast.Expr, f Facts) {
 	inherited := le.litEntry[goLit]
 	for _, l := range lhs {
 		e := ast.Unparen(l)
+		var viaField *types.Var
 		for {
 			if ix, ok := e.(*ast.IndexExpr); ok {
 				e = ast.Unparen(ix.X)
@@ -1066,6 +1176,14 @@ func (le *LockEngine) sibling(fn *Fn, pos token.Pos, lhs []ast.Expr, f Facts) {
 				e = ast.Unparen(st.X)
 				continue
 			}
+			// a field of a captured aggregate (`failure.err = …`) is a write to what the variable names
+			if se, ok := e.(*ast.SelectorExpr); ok {
+				if fv, _ := le.p.FieldSel(fn, se); fv != nil {
+					viaField = fv
+					e = ast.Unparen(se.X)
+					continue
+				}
+			}
 			break
 		}
 		id, ok := e.(*ast.Ident)
@@ -1074,6 +1192,11 @@ func (le *LockEngine) sibling(fn *Fn, pos token.Pos, lhs []ast.Expr, f Facts) {
 		}
 		v, ok := le.p.ObjOf(fn, id).(*types.Var)
 		if !ok || v.IsField() {
+			continue
+		}
+		// the receiver of a method of a lock-guarded structure is the structure itself: its fields are the guard
+		// obligations' business (R-C13.1), not captured variables
+		if fn.Lit == nil {
 			continue
 		}
 		// declared inside the go literal → private
@@ -1091,6 +1214,11 @@ func (le *LockEngine) sibling(fn *Fn, pos token.Pos, lhs []ast.Expr, f Facts) {
 			}
 		}
 		sort.Strings(own)
+		if viaField != nil {
+			// what is written is the field of what the variable names; reading the variable itself races with nothing
+			le.SibWrites = append(le.SibWrites, sibWrite{Lit: goLit, Pos: pos, Obj: viaField, Var: v.Name() + "." + viaField.Name(), Held: own, OK: len(own) > 0})
+			continue
+		}
 		le.SibWrites = append(le.SibWrites, sibWrite{Lit: goLit, Pos: pos, Obj: v, Var: v.Name(), Held: own, OK: len(own) > 0})
 	}
 }
